@@ -201,7 +201,7 @@ def check_pair(case, shard, model):
 
 
 def plan(tier, seed):
-    n = 260 if tier == "quick" else 12000
+    n = 260 if tier == "quick" else 24000
     bks = ["numpy"] * 5 + ["jax"] * 3 + ["pytorch"] * 4 + ["tensorflow"] * 4
     return [{"backend": b, "n": n if b in ("numpy", "pytorch") else n // 2, "seed": seed * 67867967 + i} for i, b in enumerate(bks)]
 
